@@ -56,9 +56,28 @@ pub fn gen(seed: u64, tier: Tier) -> ScenarioSpec {
     } else {
         rec.extras.unknown = gen_unknown(&mut rng, events_hint(&rec), 6);
     }
+    // trailing placement: after the last Game End, still inside the raw element
+    if !newer && rec.end != EndKind::None && rng.chance(1, 6) {
+        if let Some(u) = rec.extras.unknown.first_mut() {
+            // (with a doubled Game End the duplicate is only recognised when nothing else trails it, so
+            // the twin without extras would legitimately differ in its quirk flag)
+            rec.end = EndKind::Single;
+            u.after.push(1_000_000);
+            // sizes that coincide with a Game End payload are the interesting ones
+            if rng.chance(1, 2) {
+                u.size = *rng.pick(&[1u16, 2, 6]);
+            }
+        }
+    }
+    // the recorder never finalised the header (raw length 0): the reader then runs to Game End
+    // (such a file has exactly one Game End and nothing after it: without a declared length the reader
+    // cannot recognise a duplicate or trailing content)
+    if rec.end == EndKind::Single && !rec.extras.unknown.iter().any(|u| u.after.iter().any(|k| *k >= 1_000_000)) && rng.chance(1, 8) {
+        rec.raw_len_zero = true;
+    }
     let len = gen::approx_len(&rec);
     let skip_hash = rng.chance(1, 2);
-    let live = rng.chance(3, 10);
+    let live = rng.chance(3, 10) && !rec.raw_len_zero && !rec.extras.unknown.iter().any(|u| u.after.iter().any(|k| *k >= 1_000_000));
     let mut spec = gen::base_spec(P, if live { "S2" } else { "S1" }, seed, rec);
     spec.stream = gen::gen_stream(&mut rng, len, false);
     spec.knobs.insert("skip_hash".into(), skip_hash as i64);
@@ -122,7 +141,11 @@ pub fn run(spec: &ScenarioSpec, ctx: &mut Ctx) -> Result<(), Violation> {
     ctx.checks(n);
     // the same file must also parse under the skip-frames option (finished files only): the jump to
     // Game End has to honour the sizes the file declares, extras included
-    if m.end.is_some() {
+    let trailing_unknown = spec.recorder.extras.unknown.iter().any(|u| u.after.iter().any(|k| *k >= 1_000_000));
+    ctx.probe_if(trailing_unknown, "unknown event after Game End inside the raw element");
+    ctx.probe_if(spec.recorder.raw_len_zero, "unfinalised header (raw length 0)");
+    // (skip-frames presupposes a finalised file whose last event is Game End)
+    if m.end.is_some() && !trailing_unknown && !spec.recorder.raw_len_zero {
         let hash = spec.knob("skip_hash") != 0;
         let edges = m.edges();
         let mut ro = read_slp(&m.bytes, &spec.stream, &edges, OptsSpec { skip_frames: true, compute_hash: hash });
